@@ -2,6 +2,8 @@
 //! a `SimChain`, with a ledger model, a scan-queue model and an independent frontier oracle.
 //! Shared by C01 (ledger), C06 (trees), C15 (queue); C02 and C08 build on the same state.
 
+use transparent::keys::IncomingViewingKey as _;
+use zcash_protocol::value::Zatoshis;
 use std::collections::{BTreeMap, BTreeSet};
 use std::path::PathBuf;
 use std::sync::{Arc, OnceLock};
@@ -100,6 +102,30 @@ pub struct WalletCfg {
     pub own_pools: Vec<Pool>,
 }
 
+/// A transparent coin the client told the wallet about (compact blocks carry no transparent data, so the
+/// generator's ground truth for coins is this list: the coin is an output of a transaction in block `height` of
+/// the chain as it was when the coin was reported).
+#[derive(Clone, Debug)]
+pub struct TCoin {
+    pub txid: [u8; 32],
+    pub idx: u32,
+    pub acct: usize,
+    pub value: u64,
+    pub height: u32,
+    /// still in a block of the current chain
+    pub on_chain: bool,
+    pub state: TState,
+}
+#[derive(Clone, Copy, Debug, PartialEq, Eq)]
+pub enum TState {
+    /// the wallet was told the coin's block and no rewind has gone below it since
+    Mined,
+    /// a rewind went below the coin's block: the wallet must have un-mined it (un-mined coins with unknown expiry do not count)
+    Unmined,
+    /// a forced rescan may or may not have un-mined it (the truncation point of rewind_to_chain_state is the wallet's choice)
+    Unknown,
+}
+
 pub struct WalletSim {
     _dir: tempfile::TempDir,
     pub path: PathBuf,
@@ -131,6 +157,9 @@ pub struct WalletSim {
     /// heights whose block data the wallet holds (they stay in `scanned`) but which the scan queue was told to
     /// scan again (forced rescan through rewind_to_chain_state / queue_rescans)
     pub requeued: BTreeSet<u32>,
+    pub t_coins: Vec<TCoin>,
+    /// last transparent balance (total + uneconomic) read per account
+    pub t_balances: BTreeMap<usize, u64>,
 }
 
 pub fn open_conn(path: &std::path::Path, wal: bool) -> Connection {
@@ -230,6 +259,8 @@ impl WalletSim {
             late_boundaries: BTreeSet::new(),
             frontier_starts: BTreeSet::new(),
             requeued: BTreeSet::new(),
+            t_coins: vec![],
+            t_balances: BTreeMap::new(),
         };
         let birthday = AccountBirthday::from_parts(s.chain.chain_state_at(s.cfg.base_height).unwrap(), None);
         for i in 0..s.cfg.n_accounts {
@@ -355,7 +386,17 @@ impl WalletSim {
         // tree state of the abandoned branch may survive without any block: a batch's starting frontier stays
         // checkpointed after its blocks were rewound away. The wallet cannot notice such a fork by comparing block
         // hashes; like any un-rewound fork it must be rewound below before scanning the new branch.
-        let stale_frontier = self.frontier_starts.iter().any(|x| *x > h);
+        let mut stale_coin = false;
+        for c in self.t_coins.iter_mut().filter(|c| c.height > h && c.on_chain) {
+            c.on_chain = false;
+            if c.state != TState::Unmined {
+                stale_coin = true;
+            }
+        }
+        if stale_coin {
+            ctx.probe("fork_below_reported_transparent_coin");
+        }
+        let stale_frontier = self.frontier_starts.iter().any(|x| *x > h) || stale_coin;
         if stale_frontier && scanned_dropped.is_empty() {
             ctx.probe("fork_below_blockless_frontier");
             self.dirty_fork = Some(self.dirty_fork.map(|d| d.min(h)).unwrap_or(h));
@@ -531,6 +572,44 @@ impl WalletSim {
         }
     }
 
+    /// The client reports a transparent coin mined at `h` (new, or one the wallet un-mined in a rewind).
+    pub fn put_utxo(&mut self, which: Result<usize, (usize, u64, u32, u64)>, ctx: &mut RunCtx) -> Result<Result<(), String>, Violation> {
+        let (txid, idx, acct, value, h) = match which {
+            Ok(i) => {
+                let c = &self.t_coins[i];
+                (c.txid, c.idx, c.acct, c.value, c.height)
+            }
+            Err((acct, value, h, salt)) => {
+                let mut r = SubRng::new(salt);
+                (r.bytes32(), (r.next() % 3) as u32, acct, value, h)
+            }
+        };
+        let k = acct_keys(&self.net, acct as u32);
+        let Some(tk) = k.ufvk.transparent() else { return Ok(Err("no transparent key".into())) };
+        let taddr = tk.derive_external_ivk().map_err(|_| Violation::new("harness_keys", "ivk"))?.default_address().0;
+        let outpoint = transparent::bundle::OutPoint::new(txid, idx);
+        let txout = transparent::bundle::TxOut::new(Zatoshis::from_u64(value).map_err(|_| Violation::new("harness_value", "value"))?, taddr.script().into());
+        let Some(o) = zcash_client_backend::wallet::WalletTransparentOutput::from_parts(outpoint, txout, Some(BlockHeight::from_u32(h)), None, None, None) else { return Ok(Err("parts".into())) };
+        let r = {
+            let mut d = db!(self);
+            catch(|| d.put_received_transparent_utxo(&o))
+        };
+        match r {
+            Err(m) => Err(Violation::keyed("no_panic", format!("panic:{}", crate::runner::panic_site(&m)), format!("put_received_transparent_utxo panicked: {m}"))),
+            Ok(Err(e)) => Ok(Err(format!("{e}"))),
+            Ok(Ok(_)) => {
+                match which {
+                    Ok(i) => {
+                        self.t_coins[i].state = TState::Mined;
+                        ctx.probe("transparent_coin_rediscovered");
+                    }
+                    Err(_) => self.t_coins.push(TCoin { txid, idx, acct, value, height: h, on_chain: true, state: TState::Mined }),
+                }
+                Ok(Ok(()))
+            }
+        }
+    }
+
     /// Pointwise view of the stored queue: priority code per height.
     fn queue_pointwise(&self) -> Result<BTreeMap<u32, i64>, String> {
         let q = read_queue(&self.conn)?;
@@ -549,6 +628,7 @@ impl WalletSim {
         let Some(cs) = self.chain.chain_state_at(target) else { return Ok(Err("no chain state".into())) };
         let pre = self.queue_pointwise().map_err(|e| Violation::new("queue_readable", e))?;
         let old_max = self.scanned.iter().next_back().copied();
+        let was_mined: Vec<usize> = self.t_coins.iter().enumerate().filter(|(_, c)| c.state != TState::Unmined).map(|(i, _)| i).collect();
         let reset: std::collections::HashSet<_> = if reset_all { self.accounts.iter().copied().collect() } else { Default::default() };
         if std::env::var_os("ZSIM_DEBUG").is_some() {
             for t in ["sapling", "orchard", "ironwood"] {
@@ -588,6 +668,16 @@ impl WalletSim {
                         let tree_max: Option<u32> = self.conn.query_row("SELECT MAX(checkpoint_id) FROM sapling_tree_checkpoints", [], |r| r.get(0)).unwrap_or(None);
                         if let Some(tm) = tree_max {
                             self.frontier_starts.extend(fs.into_iter().filter(|x| *x <= tm));
+                        }
+                    }
+                }
+                // the wallet truncated at a height of its choosing at or above `kept`: whether a coin above `kept` that
+                // was mined before is un-mined now is not determined by the contract
+                if old_max.map(|om| om > target).unwrap_or(false) {
+                    let kept = db_max.unwrap_or(self.cfg.base_height);
+                    for i in &was_mined {
+                        if self.t_coins[*i].height > kept {
+                            self.t_coins[*i].state = TState::Unknown;
                         }
                     }
                 }
@@ -654,6 +744,12 @@ impl WalletSim {
     pub fn model_truncated(&mut self, got: u32, ctx: &mut RunCtx) {
         self.frontier_starts.retain(|x| *x <= got);
         self.requeued.retain(|x| *x <= got);
+        for c in self.t_coins.iter_mut().filter(|c| c.height > got) {
+            if c.state == TState::Mined {
+                ctx.probe("rewind_unmines_transparent_coin");
+            }
+            c.state = TState::Unmined;
+        }
         // blocks above `got` that were scanned on the *current* chain: their wallet transactions become orphans too
         let above: Vec<u32> = self.scanned.iter().copied().filter(|x| *x > got).collect();
         let (notes, _) = self.chain.ledger();
@@ -791,6 +887,8 @@ pub fn read_balances(s: &mut WalletSim) -> Result<Option<(BTreeMap<(usize, Pool)
             for (p, bal) in [(Pool::Sapling, b.sapling_balance()), (Pool::Orchard, b.orchard_balance()), (Pool::Ironwood, b.ironwood_balance())] {
                 out.insert((i, p), u64::from(bal.total()) + u64::from(bal.uneconomic_value()));
             }
+            let t = b.unshielded_balance();
+            s.t_balances.insert(i, u64::from(t.total()) + u64::from(t.uneconomic_value()));
         }
     }
     Ok(Some((out, u32::from(sum.chain_tip_height()), u32::from(sum.fully_scanned_height()))))
@@ -807,6 +905,22 @@ impl WalletSim {
             Ok(b) => b,
             Err(e) => return viol(ctx, owns, Violation::new("summary_readable", format!("get_wallet_summary failed: {e}"))),
         };
+        // ---- transparent coins: the reported unshielded balance is the sum of the coins the wallet was told about
+        // in blocks of the current chain, at or below its chain tip, that no rewind has un-mined
+        if let (Some((_, tip, _)), None) = (&bal, self.dirty_fork) {
+            if !self.t_coins.is_empty() {
+                ctx.oracle("transparent_ledger");
+                for a in 0..self.accounts.len() {
+                    let got = self.t_balances.get(&a).copied().unwrap_or(0);
+                    let base: u64 = self.t_coins.iter().filter(|c| c.acct == a && c.state == TState::Mined && c.on_chain && c.height <= *tip).map(|c| c.value).sum();
+                    let slack: u64 = self.t_coins.iter().filter(|c| c.acct == a && c.state == TState::Unknown && c.height <= *tip).map(|c| c.value).sum();
+                    if got < base || got > base + slack {
+                        let detail: Vec<String> = self.t_coins.iter().filter(|c| c.acct == a).map(|c| format!("{}@{} {:?}{}", c.value, c.height, c.state, if c.on_chain { "" } else { " (block abandoned)" })).collect();
+                        return viol(ctx, owns, Violation::new("transparent_balance_equals_ledger", format!("account {a}: wallet reports unshielded total+uneconomic = {got}, coins in blocks of the current chain at or below the tip {tip} sum to {base} (+{slack} undetermined); coins: {detail:?}")));
+                    }
+                }
+            }
+        }
         let rows = match read_notes(&self.conn, &self.accounts) {
             Ok(r) => r,
             Err(e) => return viol(ctx, owns, Violation::new("notes_readable", e)),
@@ -1341,6 +1455,16 @@ impl WalletSim {
                     }
                 }
                 _ => break,
+            }
+        }
+        // 1b. a fork the wallet cannot see by comparing block hashes (it holds no block above the fork point, only a
+        // reported transparent coin or a batch's starting frontier): the client, told of the reorg by its server,
+        // rewinds to the fork point
+        if let Some(d) = self.dirty_fork {
+            ctx.event(format!("sync: reorg reported at {d}, rewinding"));
+            match self.truncate(d.max(self.cfg.base_height), ctx)? {
+                Ok(_) => {}
+                Err(e) => return Err(Violation::new("rewind_within_pruning_depth_succeeds", format!("truncate_to_height({d}) failed during reorg handling: {e}"))),
             }
         }
         // 2. tell the wallet the tip
